@@ -59,6 +59,11 @@ def mutator_jobs(rng, ntrees, ops_per_tree, idbase=0, snap="all"):
                 tail = rng.choice(["", "/x", "/x/y/z", "/../q", "/./w//v/", "/x/../y"])
                 op = {"k": "mkdir_all", "path": H((p if rng.random() < 0.5 else p2) + tail), "mode": rng.choice([0o755, 0o700, 0o1777, 0o40755])}
             elif k in ("remove_file", "remove_dir", "remove_all"):
+                if k == "remove_all" and rng.random() < 0.6:
+                    # mostly non-empty directories: the interesting (slow) path of remove_all
+                    nonempty = [d for d in meta["dirs"] if d and any(x.startswith(d + "/") for x in meta["dirs"] + meta["files"] + meta["links"])]
+                    if nonempty:
+                        p = rng.choice(nonempty)
                 op = {"k": k, "path": H(p)}
             else:
                 op = {"k": "rename", "src": H(p), "dst": H(p2), "flags": rng.choice([0, 0, 1, 2])}
